@@ -11,7 +11,9 @@ Inductive case :=
 | CJoin (a b : str) (exp : option str)
 | CRsp (pkg sp : str) (exp : option str)
 | CSlabel (pkg sp : str) (exp : option label)
-| CTip (l : label) (exp : str).
+| CTip (l : label) (exp : str)
+| CSite (root pkg g : str) (exp_gen exp_src : option str)
+| CSiteSame (root pkg g : str) (exp : option str).
 
 Definition opt_eqb {A} (eqb : A -> A -> bool) (a b : option A) : bool :=
   match a, b with
@@ -44,6 +46,10 @@ Definition check_case (c : case) : bool :=
   | CRsp pkg sp exp => opt_eqb str_eqb (repo_source_path pkg sp) exp
   | CSlabel pkg sp exp => opt_eqb label_eqb (source_label pkg sp) exp
   | CTip l exp => let (d, f) := target_info_path l in str_eqb (d ++ c_slash :: f) exp
+  | CSite root pkg g eg es =>
+      opt_eqb str_eqb (site_gen root pkg g) eg && opt_eqb str_eqb (site_src root pkg g) es
+  | CSiteSame root pkg g e =>
+      opt_eqb str_eqb (site_gen root pkg g) e && opt_eqb str_eqb (site_src root pkg g) e
   end.
 
 Definition mismatches (cs : list (N * case)) : list N :=
